@@ -183,13 +183,35 @@ package v2
 // the token's bytes). A cache hit therefore proves authenticity at most, never that the token
 // is within its lifetime: the lifetime has to be checked on the call itself, outside the
 // cached closure.
-//@ ghost pred v1LifetimeCheckedOnThisCall() bool
-//@ callrule c30_v1_lifetime_check in (Service).VerifySessionV1TokenMessage
+//@ ghost pred v1NotExpiredOnThisCall() bool
+//@ ghost pred v1ValidOnThisCall() bool
+//@ callrule c30_v1_expiry_check in (Service).VerifySessionV1TokenMessage
 //@   property C30
-//@   callee *Object).ExpiredAt, *Object).ValidAt, (session.Object).ExpiredAt, (session.Object).ValidAt
+//@   callee *).ExpiredAt
 //@   pureeffect
 //@   optional
-//@   defines v1LifetimeCheckedOnThisCall()
+//@   defines !result ==> v1NotExpiredOnThisCall()
+//@ callrule c30_v1_lifetime_check in (Service).VerifySessionV1TokenMessage
+//@   property C30
+//@   callee *).ValidAt
+//@   pureeffect
+//@   optional
+//@   defines result ==> v1ValidOnThisCall()
 //@ func (Service).VerifySessionV1TokenMessage
 //@   property C30
-//@   ensures [lifetime_checked_on_every_call_not_taken_from_the_shared_cache] err == nil ==> v1LifetimeCheckedOnThisCall()
+//@   ensures [lifetime_checked_on_every_call_not_taken_from_the_shared_cache] err == nil ==> v1NotExpiredOnThisCall() && v1ValidOnThisCall()
+
+// The bearer token's verdict cache is private to this service and purged on every new epoch,
+// but the purge is asynchronous to the requests: a verdict computed at epoch E may be looked up
+// (or even stored) after the epoch has changed. As for session tokens, a hit proves
+// authenticity; the lifetime is checked on the call itself.
+//@ ghost pred bearerValidOnThisCall() bool
+//@ callrule c30_bearer_lifetime_check in (Service).VerifyBearerTokenMessage
+//@   property C30
+//@   callee *).ValidAt
+//@   pureeffect
+//@   optional
+//@   defines result ==> bearerValidOnThisCall()
+//@ func (Service).VerifyBearerTokenMessage
+//@   property C30
+//@   ensures [lifetime_checked_on_every_call_not_taken_from_the_cache] err == nil ==> bearerValidOnThisCall()
